@@ -443,6 +443,62 @@ pub fn run(ctx: &Ctx) -> (Acc, Report) {
         for d in driver::drivers() {
             renderings.push((format!("Debug(S3Request<{}Input>)", d.name()), d.request_debug_with_credentials(AK, SK)));
         }
+        // secrets of other lengths (a redaction that keeps "the last four characters" shows a short secret whole): the same
+        // Debug / serde renderings, and one honest signed request traced at TRACE, for secrets of 2..6, 16 and 300
+        // characters made of characters that occur nowhere else
+        let mut other_lengths: Vec<(String, String, String)> = Vec::new();
+        for n in [2usize, 3, 4, 5, 6, 16, 300] {
+            let secret: String = "~^`|}{".chars().cycle().take(n).collect();
+            let sk2 = SecretKey::from(secret.as_str());
+            let cred2 = Credentials { access_key: AK.to_owned(), secret_key: sk2.clone() };
+            let auth2 = SimpleAuth::from_single(AK, secret.as_str());
+            other_lengths.push((format!("secret of {n} characters: Debug(SecretKey)"), format!("{sk2:?} {sk2:#?}"), secret.clone()));
+            other_lengths.push((format!("secret of {n} characters: Debug(Credentials)"), format!("{cred2:?} {cred2:#?} {:?}", Some(cred2.clone())), secret.clone()));
+            other_lengths.push((format!("secret of {n} characters: Debug(SimpleAuth)"), format!("{auth2:?} {auth2:#?} {:?}", auth2.lookup(AK)), secret.clone()));
+            other_lengths.push((format!("secret of {n} characters: serde_json(SecretKey)"), serde_json::to_string(&sk2).unwrap_or_default(), secret.clone()));
+            other_lengths.push((format!("secret of {n} characters: Debug(S3Request<GetObjectInput>)"), driver::drivers().iter().find(|d| d.name() == "GetObject").map(|d| d.request_debug_with_credentials(AK, &secret)).unwrap_or_default(), secret.clone()));
+            // an honest request signed with this secret, and the same with a wrong signature, traced
+            for honest in [true, false] {
+                let mut r = Req::new("GET", "/bkt/k").header("host", "s3.example.com");
+                let scope = Scope::new(AK, &DATE[..8], "us-east-1", "s3");
+                let sig = sign_v4_header(&mut r, &secret, &scope, DATE, &sha256_hex(b""), &[]);
+                if !honest {
+                    let a = r.get_header("authorization").unwrap().replace(&sig, &"0".repeat(64));
+                    r.set_header("authorization", &a);
+                }
+                set_clock_ms((t0 + 60) * 1000);
+                let ((out, dbg), log_bytes) = traced(|| {
+                    let (svc, log) = SvcCfg { keys: Some(vec![(AK.into(), secret.clone())]), access: AccessMode::Allow, ..Default::default() }.build();
+                    let out = call(&svc, &r, body_one_frame(b""));
+                    let dbg: Vec<String> = backend_calls(&log).iter().map(|c| format!("{} {:?}", c.input_debug, c.headers)).collect();
+                    (out, dbg)
+                });
+                let mut all = log_bytes;
+                all.extend_from_slice(out.verdict().as_bytes());
+                if let Some(resp) = out.resp() {
+                    all.extend_from_slice(format!("{:?}", resp.headers).as_bytes());
+                    all.extend_from_slice(&resp.body());
+                }
+                all.extend_from_slice(dbg.join("\n").as_bytes());
+                other_lengths.push((format!("secret of {n} characters: {} signed request, trace + response + backend view", if honest { "an honest" } else { "a wrongly" }), String::from_utf8_lossy(&all).into_owned(), secret.clone()));
+            }
+            s3s::verif_hooks::set_now(None);
+        }
+        for (what, text, secret) in other_lengths {
+            let id = || format!("render/{what}");
+            if !acc.selected(&id) {
+                continue;
+            }
+            acc.eval();
+            acc.nontrivial(fnv(what.as_bytes()));
+            let leaked = text.contains(&secret);
+            if leaked {
+                let pos = text.find(&secret).unwrap_or(0);
+                let kind = what.split(": ").nth(1).unwrap_or(&what).split('<').next().unwrap_or("").to_owned();
+                acc.fail(&format!("C16/leak/rendering/{kind}/secret-of-another-length"), secret.len() as u64, id(), format!("the secret appears in {what}: ...{}...", String::from_utf8_lossy(&text.as_bytes()[pos.saturating_sub(80)..(pos + secret.len() + 20).min(text.len())])), json!({"secret_length": secret.len()}));
+            }
+            acc.outcome(if leaked { "rendering: SECRET EMITTED" } else { "rendering: no secret" });
+        }
         for (what, text) in renderings {
             let id = || format!("render/{what}");
             if !acc.selected(&id) {
@@ -463,7 +519,7 @@ pub fn run(ctx: &Ctx) -> (Acc, Report) {
     }
     let rep = Report {
         level: "exploration",
-        rule: format!("{n_cases} requests (14 request classes of C05-C11 over {} SDK-encoded operations, POST forms valid / bad signature / bad policy, chunk-signed uploads valid / corrupted / truncated; plus {n_modes} authentication failure modes: every field of every scheme's credentials material removed / emptied / garbled / wrong-but-well-formed / doubled) x {n_cfgs} service configurations, each executed under a thread-local TRACE subscriber that renders every event and span field; searched: trace output, response head and body, call result, the request as the backend sees it, for the secret in 8 spellings (raw, AWS4-prefixed, base64, hex, HEX, byte-debug, URL-encoded, JSON-escaped). Plus Debug / pretty Debug / serde_json of SecretKey, Credentials, SimpleAuth and S3Request<Input> for each of the 96 operations with credentials attached, and the serde form of SecretKey (alone, in Option/Vec/tuple/struct/map) through a recording serializer of each class an impl can distinguish (human-readable, binary). Distinct by id; every case is non-trivial (trace output is non-empty, checked).", bases.len()),
+        rule: format!("{n_cases} requests (14 request classes of C05-C11 over {} SDK-encoded operations, POST forms valid / bad signature / bad policy, chunk-signed uploads valid / corrupted / truncated; plus {n_modes} authentication failure modes: every field of every scheme's credentials material removed / emptied / garbled / wrong-but-well-formed / doubled) x {n_cfgs} service configurations, each executed under a thread-local TRACE subscriber that renders every event and span field; searched: trace output, response head and body, call result, the request as the backend sees it, for the secret in 8 spellings (raw, AWS4-prefixed, base64, hex, HEX, byte-debug, URL-encoded, JSON-escaped). Plus Debug / pretty Debug / serde_json of SecretKey, Credentials, SimpleAuth and S3Request<Input> for each of the 96 operations with credentials attached, and the serde form of SecretKey (alone, in Option/Vec/tuple/struct/map) through a recording serializer of each class an impl can distinguish (human-readable, binary). The Debug / serde renderings and an honest and a wrongly signed traced request again for secrets of 2-6, 16 and 300 characters. Distinct by id; every case is non-trivial (trace output is non-empty, checked).", bases.len()),
         exhaustive: true,
         extra: json!({"requests": n_cases, "configurations": n_cfgs}),
         assumptions: vec!["formatting sites that are not on an enumerated path are not covered".into(), "derived key material (HMAC outputs) is not searched for; the statement is about secret access keys".into()],
